@@ -543,6 +543,10 @@ class Evaluator:
         self._foreign.append(set())
         saved_keep = self._keep_seq
         self._keep_seq = False      # index mode applies to the literal subscript expression only
+        saved_bound = self.bound
+        # comprehension / lambda variables are scoped to their expression: they must not capture same-named
+        # locals while another statement's definition is evaluated
+        self.bound = {k: v for k, v in saved_bound.items() if k not in self._local_names and k not in self._params}
         try:
             res = None
             alld = [d for d in self.cfg.defs_of_node(node) if d[0] == name]
@@ -610,6 +614,7 @@ class Evaluator:
                 raise AnalysisError(f"{self.func.qual}: cannot resolve definition of {name}")
         finally:
             self._keep_seq = saved_keep
+            self.bound = saved_bound
             self._stack.pop()
             foreign = self._foreign.pop()
         if not foreign:
